@@ -5,12 +5,30 @@
 #[macro_use]
 pub mod vsrc;
 
+pub mod c34;
 pub mod c35;
 
 #[cfg(not(kani))]
 pub const REPLAY: &[(&str, fn(&mut vsrc::ReplaySrc))] = &[
+    ("c34_skipped_height", |s| c34::skipped_height(s)),
+    ("c34_exec_step_cap30m", |s| c34::exec_step::<_, 30_000_000>(s)),
+    ("c34_exec_step_cap1", |s| c34::exec_step::<_, 1>(s)),
+    ("c34_exec_step_anycap", |s| c34::exec_step::<_, 0>(s)),
+    ("c34_da_step_f1", |s| c34::da_step::<_, 1>(s)),
+    ("c34_da_step_f100", |s| c34::da_step::<_, 100>(s)),
+    ("c34_da_step_f1m", |s| c34::da_step::<_, 1_000_000>(s)),
+    ("c34_da_change_f1", |s| c34::da_change::<_, 1>(s)),
+    ("c34_da_change_f100", |s| c34::da_change::<_, 100>(s)),
+    ("c34_activity", |s| c34::activity(s)),
+    ("c34_da_record_f1", |s| c34::da_record::<_, 1>(s)),
+    ("c34_da_record_f100", |s| c34::da_record::<_, 100>(s)),
+    ("c34_l2_update_f1", |s| c34::l2_update::<_, 1, 30_000_000>(s)),
+    ("c34_l2_update_f100", |s| c34::l2_update::<_, 100, 30_000_000>(s)),
     ("c35_total", |s| c35::total(s)),
     ("c35_worst_case_total", |s| c35::worst_case_total(s)),
+    ("c35_worst_case_components_fixed", |s| c35::worst_case_components::<_, 0>(s)),
+    ("c35_worst_case_components_k10", |s| c35::worst_case_components::<_, 10>(s)),
+    ("c35_worst_case_components_k20", |s| c35::worst_case_components::<_, 20>(s)),
     ("c35_table_monotone_k16", |s| c35::table_monotone::<_, 16>(s)),
     ("c35_table_monotone_k20", |s| c35::table_monotone::<_, 20>(s)),
     ("c35_table_monotone_k28", |s| c35::table_monotone::<_, 28>(s)),
